@@ -1195,13 +1195,20 @@ func (x *c04Exec) makeAuthors(repo repository.ClockedRepo, kr repository.Keyring
 				return nil, err
 			}
 			before := id.Id()
+			// metadata added once the id has been handed out must not change it either
+			id.SetMetadata("verif-late", fmt.Sprintf("set after Id() %d", i))
 			c04TickClocks(repo, i)
 			if err := id.Commit(repo); err != nil {
 				return nil, err
 			}
 			x.count("identity_ids_compared_across_commit", 1)
 			if id.Id() != before {
-				x.find("identity-id-changed-by-commit", fmt.Sprintf("identity id %s after commit, %s before (the repository clocks moved in between)", id.Id(), before))
+				x.find("identity-id-changed-by-commit", fmt.Sprintf("identity id %s after commit, %s before (metadata was set and the repository clocks moved in between)", id.Id(), before))
+			}
+			if re, rerr := identity.ReadLocal(repo, before); rerr != nil {
+				x.find("identity-not-stored-under-its-id:"+c04ErrClass(rerr), fmt.Sprintf("identity %s handed out before the commit cannot be read under that id afterwards: %v", before.Human(), rerr))
+			} else if v, ok := re.ImmutableMetadata()["verif-late"]; !ok && re.MutableMetadata()["verif-late"] == "" {
+				x.find("identity-late-metadata-lost", fmt.Sprintf("identity %s: metadata set between Id() and Commit is not stored (%q)", before.Human(), v))
 			}
 		}
 		if keyed {
